@@ -343,21 +343,33 @@ func (c *c16Check) Run(seed, run uint64, rec []uint32, st Stats, only *Viol) []V
 			s.Discarded++
 			return nil
 		}
-		// candidate insertion points: start of program and every "\n"
-		var pts []int
+		// candidate insertion points: start of program, every "\n", and right after an
+		// opening bracket or a comma (the grammar allows one line break there); whether a
+		// candidate really is a grammar line break is decided by the calibration below
+		var pts, brk []int
 		for i := 0; i < len(src); i++ {
-			if src[i] == '\n' {
+			switch src[i] {
+			case '\n':
 				pts = append(pts, i)
+			case '[', '(', '{', ',':
+				brk = append(brk, i)
 			}
 		}
 		atStart := t.Chance(1, 6) || len(pts) == 0
+		afterBracket := !atStart && len(brk) > 0 && t.Chance(1, 3)
 		pos := -1
-		if !atStart {
+		if afterBracket {
+			pos = brk[t.Intn(len(brk))]
+			s.ByKind["layout-after-bracket-or-comma"]++
+		} else if !atStart {
 			pos = pts[t.Intn(len(pts))]
 		}
 		apply := func(pad string) string {
 			if atStart {
 				return strings.TrimPrefix(pad, "\n") + src
+			}
+			if afterBracket {
+				return src[:pos+1] + pad + src[pos+1:]
 			}
 			return src[:pos] + pad + src[pos+1:]
 		}
